@@ -8,6 +8,7 @@
 #include "gen_scale.h"
 #include "ambient.h"
 #include <array>
+#include <optional>
 
 using vrt::Rng;
 using vrt::sfmt;
@@ -50,6 +51,97 @@ static bool prefix_fold_equal(const S &a, size_t na, const S &b, size_t nb)
     for (size_t i = 0; i < na; ++i)
         if (ref::fold(static_cast<unsigned char>(a[i])) != ref::fold(static_cast<unsigned char>(b[i]))) return false;
     return true;
+}
+
+// ---------------------------------------------------------------- operands in caller-side storage
+// A block of the caller's own memory whose data starts `lead` bytes (0..15, whole elements) behind a 16-byte boundary and ends
+// exactly where the block ends (optionally after one NUL unit), so that the library sees a pointer of every alignment and a
+// read past the end lands in the ASan red zone.  The block can be rewritten in place: same address, same size, new content.
+// The slack in front is filled with the data's own elements (an under-read changes a result) or poisoned when it is 8 bytes.
+template <typename T>
+struct Placed {
+    char *base;
+    T *p;
+    size_t n, lead;
+    bool nul;
+    Placed(size_t count, bool with_nul, size_t lead_bytes) : base(nullptr), p(nullptr), n(count), lead(lead_bytes - lead_bytes % sizeof(T)), nul(with_nul)
+    {
+        const size_t bytes = lead + (n + (nul ? 1 : 0)) * sizeof(T);
+        void *m = nullptr;
+        if (posix_memalign(&m, 16, bytes ? bytes : 1) != 0 || !m) { fprintf(stderr, "vrt: out of memory\n"); _exit(98); }
+        base = static_cast<char *>(m);
+        p = reinterpret_cast<T *>(base + lead);
+    }
+    Placed(const std::basic_string<T> &s, bool with_nul, size_t lead_bytes) : Placed(s.size(), with_nul, lead_bytes) { put(s.data()); }
+    Placed(const Placed &) = delete;
+    Placed &operator=(const Placed &) = delete;
+    void guard(bool on)
+    {
+#ifdef VRT_HAVE_ASAN
+        if (lead && lead % 8 == 0) { if (on) vrt::__asan_poison_memory_region(base, lead); else vrt::__asan_unpoison_memory_region(base, lead); }
+#else
+        (void)on;
+#endif
+    }
+    void put(const T *src)
+    {
+        guard(false);
+        if (n) memcpy(p, src, n * sizeof(T));
+        if (nul) p[n] = T();
+        T *front = reinterpret_cast<T *>(base);
+        for (size_t i = 0; i < lead / sizeof(T); ++i) front[i] = n ? src[n - 1 - i % n] : static_cast<T>(0x80);
+        guard(true);
+    }
+    ~Placed() { guard(false); free(base); }
+    unsigned mod16() const { return static_cast<unsigned>(reinterpret_cast<uintptr_t>(p) & 15); }
+};
+
+// The const char* / const char8_t* overloads with the right operand in CALLER storage at `pb` (the text `b`, no NUL inside, one
+// NUL behind it): against the reference, and - with `sb`, an ST::string that holds the same bytes - against the ST::string
+// overload.  (operator< exists for ST::string operands only; a C string would go through the validating converting constructor.)
+static void pointer_operand(const ST::string &sa, const S &a, const ST::string *sb, const S &b, const char *pb, const std::vector<size_t> &limits)
+{
+    const char8_t *ub = reinterpret_cast<const char8_t *>(pb);
+    auto chk = [&](const char *what, long got, long want, size_t n) {
+        vrt::evals();
+        if (got != want)
+            bad(what, a, b, sfmt("got=%ld want=%ld n=%zu; the right operand is a C string in caller storage at an address = %u modulo 16", got, want, n,
+                                 static_cast<unsigned>(reinterpret_cast<uintptr_t>(pb) & 15)));
+    };
+    const int want = ref::compare(a, b);
+    const int c = sgn(sa.compare(pb));
+    chk("compare:cstr:caller-storage", c, want, SMAX);
+    chk("compare:char8_t:caller-storage", sgn(sa.compare(ub)), want, SMAX);
+    chk("compare:cstr-cs-param:caller-storage", sgn(sa.compare(pb, ST::case_sensitive)), want, SMAX);
+    chk("operator==:cstr:caller-storage", sa == pb, want == 0, SMAX);
+    chk("operator!=:cstr:caller-storage", sa != pb, want != 0, SMAX);
+    chk("operator==:char8_t:caller-storage", sa == ub, want == 0, SMAX);
+    chk("operator!=:char8_t:caller-storage", sa != ub, want != 0, SMAX);
+    const int ci = sgn(sa.compare_i(pb));
+    chk("compare_i:cstr:caller-storage:zero-iff-fold-equal", ci == 0, prefix_fold_equal(a, a.size(), b, b.size()), SMAX);
+    chk("compare_i:char8_t:caller-storage", sgn(sa.compare_i(ub)), ci, SMAX);
+    chk("compare:cstr-ci-param:caller-storage", sgn(sa.compare(pb, ST::case_insensitive)), ci, SMAX);
+    chk("compare:char8_t-ci-param:caller-storage", sgn(sa.compare(ub, ST::case_insensitive)), ci, SMAX);
+    if (sb) {
+        chk("compare:cstr:caller-storage:string-overload-agrees", sgn(sa.compare(*sb)), c, SMAX);
+        chk("compare_i:cstr:caller-storage:string-overload-agrees", sgn(sa.compare_i(*sb)), ci, SMAX);
+        chk("compare_i:cstr:caller-storage:antisymmetry-across-overloads", sgn(sb->compare_i(sa)), -ci, SMAX);
+        chk("operator==:cstr:caller-storage:string-overload-agrees", sa == *sb, sa == pb, SMAX);
+    }
+    for (size_t nn : limits) {
+        const size_t na = std::min(nn, a.size()), nb = std::min(nn, b.size());
+        const int wn = prefix_compare(a, na, b, nb);
+        chk("compare_n:cstr:caller-storage", sgn(sa.compare_n(pb, nn)), wn, nn);
+        chk("compare_n:char8_t:caller-storage", sgn(sa.compare_n(ub, nn)), wn, nn);
+        const int cn = sgn(sa.compare_ni(pb, nn));
+        chk("compare_ni:cstr:caller-storage:zero-iff-fold-equal", cn == 0, prefix_fold_equal(a, na, b, nb), nn);
+        chk("compare_ni:char8_t:caller-storage", sgn(sa.compare_ni(ub, nn)), cn, nn);
+        chk("compare_n:cstr-ci-param:caller-storage", sgn(sa.compare_n(pb, nn, ST::case_insensitive)), cn, nn);
+        if (sb) {
+            chk("compare_n:cstr:caller-storage:string-overload-agrees", sgn(sa.compare_n(*sb, nn)), sgn(sa.compare_n(pb, nn)), nn);
+            chk("compare_ni:cstr:caller-storage:string-overload-agrees", sgn(sa.compare_ni(*sb, nn)), cn, nn);
+        }
+    }
 }
 
 // all agreement checks for one ordered pair of ST::strings; the prefix limits are 0..max(|a|,|b|)+1 and SIZE_MAX, or the
@@ -142,6 +234,17 @@ static void string_pair(const ST::string &sa, const S &a, const ST::string &sb, 
             }
         }
     }
+    // the C-string overloads once more with the text in the caller's own storage (a block that ends right behind the NUL and
+    // starts at a varying alignment) instead of another ST::string's buffer
+    {
+        vrt::Exact<char> eb(bc.data(), bc.size(), true);
+        std::vector<size_t> all;
+        if (with_n && !limits) {
+            for (size_t n = 0; n <= std::max(a.size(), b.size()) + 1; ++n) all.push_back(n);
+            all.push_back(SMAX);
+        }
+        pointer_operand(sa, a, bc.size() == b.size() ? &sb : nullptr, bc, eb.data(), with_n && limits ? *limits : all);
+    }
 }
 
 static void case_map(const ST::string &sa, const S &a)
@@ -230,12 +333,13 @@ static void equal_values_with_history(const char *tn)
     }
 }
 
+// all checks for one ordered pair of buffer objects ba, bb that hold the values a, b
 template <typename T>
-static void buffer_pair(const char *tn, const std::basic_string<T> &a, const std::basic_string<T> &b, const std::vector<size_t> *limits = nullptr)
+static void buffer_objs(const char *tn, const ST::buffer<T> *ba, const std::basic_string<T> &a, const ST::buffer<T> *bb, const std::basic_string<T> &b,
+                        const std::vector<size_t> *limits, bool histories)
 {
     typedef ST::buffer<T> B;
     typedef std::basic_string<T> BS;
-    vrt::Box<B> ba(a.data(), a.size()), bb(b.data(), b.size());
     auto fail = [&](const char *what, long got, long want, const std::string &ex) {
         vrt::violation(sfmt("C06:buffer<%s>:%s", tn, what),
                        sfmt("a=%s b=%s got=%ld want=%ld %s", vrt::hex(a.data(), a.size(), sizeof(T)).c_str(),
@@ -259,6 +363,14 @@ static void buffer_pair(const char *tn, const std::basic_string<T> &a, const std
     BEQ("null_t!=buffer [deprecated]", ST::null_t() != *bb, !b.empty(), "");
     const BS bc = cut0(b);
     BEQ("compare:cstr", sgn(ba->compare(bb->c_str())), ref_cmp(a, bc), "");
+    // the (pointer, length) and C-string operands once more from the caller's own storage: blocks that end where the data ends
+    // and start at a varying alignment
+    vrt::Exact<T> ea(a.data(), a.size()), eb(b.data(), b.size()), ec(bc.data(), bc.size(), true);
+    const std::string where = sfmt("operands in caller storage at addresses = %u, %u, %u modulo 16 ", static_cast<unsigned>(reinterpret_cast<uintptr_t>(ea.data()) & 15),
+                                   static_cast<unsigned>(reinterpret_cast<uintptr_t>(eb.data()) & 15), static_cast<unsigned>(reinterpret_cast<uintptr_t>(ec.data()) & 15));
+    BEQ("compare:static:caller-storage", sgn(B::compare(ea.data(), a.size(), eb.data(), b.size())), want, where);
+    BEQ("compare:static:caller-storage:antisymmetry", sgn(B::compare(eb.data(), b.size(), ea.data(), a.size())), -want, where);
+    BEQ("compare:cstr:caller-storage", sgn(ba->compare(ec.data())), ref_cmp(a, bc), where);
     size_t lim = std::max(a.size(), b.size()) + 1;
     const size_t steps = limits ? limits->size() : lim + 2;
     for (size_t n = 0; n < steps; ++n) {
@@ -269,10 +381,12 @@ static void buffer_pair(const char *tn, const std::basic_string<T> &a, const std
         BEQ("compare_n:sign", sgn(ba->compare_n(*bb, nn)), wn, ex);
         BEQ("compare_n:static", sgn(B::compare(a.data(), a.size(), b.data(), b.size(), nn)), wn, ex);
         BEQ("compare_n:cstr", sgn(ba->compare_n(bb->c_str(), nn)), ref_cmp(a, na, bc, nbc), ex);
+        BEQ("compare_n:static:caller-storage", sgn(B::compare(ea.data(), a.size(), eb.data(), b.size(), nn)), wn, where + ex);
+        BEQ("compare_n:cstr:caller-storage", sgn(ba->compare_n(ec.data(), nn)), ref_cmp(a, na, bc, nbc), where + ex);
     }
     // The same two values held by objects with a history (a value assigned over another one, a cleared or re-allocated
     // object, the moved-from source of a move): order and equality are functions of the value alone.
-    {
+    if (histories) {
         const uint64_t h = vrt::fnv1a(b.data(), b.size() * sizeof(T), vrt::fnv1a(a.data(), a.size() * sizeof(T), 0x41));
         std::unique_ptr<B> ha(with_history<T>(a, static_cast<unsigned>(h % 16))), hb(with_history<T>(b, static_cast<unsigned>((h / 16) % 16)));
         std::string ex = sfmt("objects with a history (kinds %u, %u)", static_cast<unsigned>(h % 16), static_cast<unsigned>((h / 16) % 16));
@@ -288,6 +402,14 @@ static void buffer_pair(const char *tn, const std::basic_string<T> &a, const std
     }
     vrt::count(std::string("buffer.pairs.") + tn);
 #undef BEQ
+}
+
+template <typename T>
+static void buffer_pair(const char *tn, const std::basic_string<T> &a, const std::basic_string<T> &b, const std::vector<size_t> *limits = nullptr)
+{
+    typedef ST::buffer<T> B;
+    vrt::Box<B> ba(a.data(), a.size()), bb(b.data(), b.size());
+    buffer_objs<T>(tn, ba.p, a, bb.p, b, limits, true);
 }
 
 // huge lengths through the static pointer+length compare: only min(lsize,rsize)
@@ -785,6 +907,814 @@ static void scale_phases()
                                {U'x', 1, U'A', 0x7f, 0x80, 0xffff, 0x10ffff, 0x7fffffff, 0x80000000u, 0xffffffffu}, size_t(1) << 18);
 }
 
+// ---------------------------------------------------------------- alignment phases
+// Every const char* / char8_t* / (pointer, length) operand at every start alignment 0..15, for operands of 16..80 units that
+// agree on their first 8 bytes and differ first (really, or in case only) at each index from 8 on (so at each index 8..16 and
+// at each index of the last 16 for every length); the object on the other side holds the same bytes in the library's own
+// (aligned) buffer, so the result is also compared with the ST::string overload.
+namespace al {
+
+enum Variant { REAL, CASE_ONLY, CASE_THEN_REAL, REAL_THEN_OPPOSITE, HIGH_VS_ASCII, BIT5_NON_LETTER, SHORTER, HEAD_CASE_THEN_REAL, N_VARIANTS };
+static const char *const variant_name[] = {"real", "case_only", "case_only_then_real", "real_then_opposite", "high_vs_ascii", "bit5_non_letter", "proper_prefix", "case_differs_in_first_8_then_real"};
+
+static void string_case(uint64_t i, Rng &r)
+{
+    CtxGuard guard;
+    const size_t len = 16 + i % 65;
+    const unsigned bg = static_cast<unsigned>((i / 65) % 4);
+    S base(len, 'x');
+    switch (bg) {
+    case 0: base.assign(len, "xXm_"[r.below(4)]); break;
+    case 1: for (auto &c : base) c = static_cast<char>((r.chance(1, 2) ? 'A' : 'a') + r.below(26)); break;
+    case 2: { static const S tw = "@`[{^~_\x7fiIkKzZaA"; for (auto &c : base) c = tw[r.below(tw.size())]; break; }
+    default: for (auto &c : base) { const uint64_t v = r.next() & 0xFF; c = static_cast<char>(v ? v : 0x41); } break;
+    }
+    // every index from 8 on (so 8..16 and the last 16 are complete for every length), and what is left of the last 16
+    std::vector<size_t> idxs;
+    for (size_t x = len - 16; x < 8; ++x) idxs.push_back(x);
+    for (size_t x = 8; x <= len; ++x) idxs.push_back(x);
+    uint64_t at_mod[16] = {0}, n_var[N_VARIANTS] = {0}, n_ops = 0, n_8_16 = 0, n_last16 = 0, n_feq = 0;
+    for (size_t idx : idxs)
+        for (unsigned v = 0; v < N_VARIANTS; ++v) {
+            if (v != SHORTER && idx >= len) continue;
+            S a = base, b = base;
+            const char l1 = static_cast<char>('a' + r.below(26));
+            char l2 = static_cast<char>('a' + r.below(25));
+            if (l2 >= l1) ++l2;
+            const bool up1 = r.chance(1, 2), up2 = r.chance(1, 2);
+            auto real_at = [&](size_t k) { a[k] = static_cast<char>(up1 ? l1 - 32 : l1); b[k] = static_cast<char>(up2 ? l2 - 32 : l2); };
+            switch (v) {
+            case REAL: real_at(idx); break;
+            case CASE_ONLY: a[idx] = l1; b[idx] = static_cast<char>(l1 - 32); break;
+            case CASE_THEN_REAL: {
+                if (idx == 0) continue;
+                const size_t j = idx > 8 ? 8 + r.below(idx - 8) : r.below(idx);
+                a[j] = l2; b[j] = static_cast<char>(l2 - 32);
+                real_at(idx);
+                break;
+            }
+            case REAL_THEN_OPPOSITE: {
+                if (idx + 1 >= len) continue;
+                a[idx] = 'c'; b[idx] = up2 ? 'D' : 'd';
+                const size_t j = idx + 1 + r.below(std::min<size_t>(8, len - idx - 1));
+                a[j] = 'z'; b[j] = 'b';
+                break;
+            }
+            case HIGH_VS_ASCII: a[idx] = static_cast<char>(0x80 + r.below(0x80)); b[idx] = up2 ? l2 : static_cast<char>(0x20 + r.below(0x5F)); break;
+            case BIT5_NON_LETTER: { static const char tw[][2] = {{'@', '`'}, {'[', '{'}, {'\xc3', '\xe3'}, {'^', '~'}, {'\xdd', '\xfd'}, {0x10, '0'}}; const char *t = r.pick(tw); a[idx] = t[0]; b[idx] = t[1]; break; }
+            case SHORTER: b = a.substr(0, idx); break;
+            default: {
+                const size_t j = r.below(std::min<size_t>(8, len));
+                if (j >= idx) continue;
+                a[j] = l2; b[j] = static_cast<char>(l2 - 32);
+                real_at(idx);
+                break;
+            }
+            }
+            if (r.chance(1, 2)) std::swap(a, b);
+            vrt::Box<ST::string> sa(vrt::mk(a)), sb(vrt::mk(b));
+            const std::vector<size_t> lims = {idx, idx + 1, 16, len, SMAX, r.below(len + 2)};
+            ctx() = sfmt(" [alignment: operands of %zu / %zu bytes, first %s difference at index %zu, background %u]", a.size(), b.size(), variant_name[v], idx, bg);
+            vrt::cur_printf("alignment: a=%s b=%s%s\n", show(a).c_str(), show(b).c_str(), ctx().c_str());
+            for (size_t k = 0; k < 16; ++k) {
+                Placed<char> pb(b, true, k), pa(a, true, (k * 5 + 3) & 15);
+                pointer_operand(*sa, a, sb.p, b, pb.p, lims);
+                pointer_operand(*sb, b, sa.p, a, pa.p, lims);
+                ++at_mod[pb.mod16()];
+                ++at_mod[pa.mod16()];
+                n_ops += 2;
+            }
+            ++n_var[v];
+            if (idx >= 8 && idx <= 16) ++n_8_16;
+            if (idx + 16 >= len) ++n_last16;
+            if (ref::folded(a) == ref::folded(b) && a != b) ++n_feq;
+        }
+    ctx().clear();
+    vrt::count("alignment.string.cases");
+    vrt::count("alignment.string.pointer_operands", n_ops);
+    vrt::count("alignment.string.first_difference_at_index_8..16", n_8_16);
+    vrt::count("alignment.string.first_difference_in_the_last_16", n_last16);
+    vrt::count("alignment.string.fold_equal_pairs", n_feq);
+    for (unsigned k = 0; k < 16; ++k) vrt::count(sfmt("alignment.string.operand_at_address_mod16=%02u", k), at_mod[k]);
+    for (unsigned v = 0; v < N_VARIANTS; ++v) vrt::count(sfmt("alignment.string.difference.%s", variant_name[v]), n_var[v]);
+    vrt::distinct(vrt::fnv1a(base.data(), base.size(), 41));
+    if (vrt::want_sample("alignment"))
+        vrt::sample("alignment", sfmt("operands of %zu bytes (background %u): for each index from 8 on (and the rest of the last 16), 8 kinds of first difference there; each pair with the C string at every "
+                                      "address modulo 16 (block ends behind the NUL), both directions, compare / compare_i / compare_n / compare_ni / == / != through the const char* and "
+                                      "char8_t* overloads against the reference and the ST::string overload", len, bg));
+}
+
+// buffers: both (pointer, length) operands at every pair of start alignments
+template <typename T>
+static void buffer_case(const char *tn, const std::vector<T> &alpha, uint64_t i, Rng &r)
+{
+    typedef ST::buffer<T> B;
+    typedef std::basic_string<T> BS;
+    const size_t len = 16 + i % 65, A = 16 / sizeof(T);
+    BS base(len, alpha[r.below(alpha.size())]);
+    if ((i / 65) & 1) for (auto &c : base) c = alpha[r.below(alpha.size())];
+    std::vector<size_t> idxs;
+    for (size_t x = 0; x <= 16 && x <= len; ++x) idxs.push_back(x);
+    for (size_t x = len - 16; x < len; ++x) if (std::find(idxs.begin(), idxs.end(), x) == idxs.end()) idxs.push_back(x);
+    uint64_t n_calls = 0, n_pairs = 0;
+    for (size_t idx : idxs)
+        for (unsigned v = 0; v < 3; ++v) {
+            if (v != 2 && idx >= len) continue;
+            BS a = base, b = base;
+            if (v == 2) b = a.substr(0, idx);
+            else {
+                T x = alpha[r.below(alpha.size())], y = alpha[r.below(alpha.size() - 1)];
+                if (y == x) y = alpha[alpha.size() - 1];
+                a[idx] = x; b[idx] = y;
+                if (v == 1 && idx + 1 < len) {     // a later difference ordered the other way round
+                    const size_t j = idx + 1 + r.below(std::min<size_t>(8, len - idx - 1));
+                    a[j] = y; b[j] = x;
+                }
+            }
+            vrt::Box<B> oa(a.data(), a.size()), ob(b.data(), b.size());
+            const int want = ref_cmp(a, b);
+            const size_t lims[] = {idx, idx + 1, SMAX};
+            int wn[3];
+            for (int k = 0; k < 3; ++k) wn[k] = ref_cmp(a, std::min(lims[k], a.size()), b, std::min(lims[k], b.size()));
+            for (size_t la = 0; la < A; ++la) {
+                Placed<T> pa(a, false, la * sizeof(T));
+                for (size_t lb = 0; lb < A; ++lb) {
+                    Placed<T> pb(b, true, lb * sizeof(T));
+                    auto chk = [&](const char *what, int got, int w, size_t n) {
+                        vrt::evals();
+                        if (got != w)
+                            vrt::violation(sfmt("C06:buffer<%s>:%s", tn, what),
+                                           sfmt("a=%s b=%s got=%d want=%d n=%zu; operands in caller storage at addresses = %u and %u modulo 16, first difference at index %zu", vrt::hex(a.data(), a.size(), sizeof(T)).c_str(),
+                                                vrt::hex(b.data(), b.size(), sizeof(T)).c_str(), got, w, n, pa.mod16(), pb.mod16(), idx));
+                    };
+                    chk("compare:static:caller-storage", sgn(B::compare(pa.p, a.size(), pb.p, b.size())), want, SMAX);
+                    chk("compare:static:caller-storage:antisymmetry", sgn(B::compare(pb.p, b.size(), pa.p, a.size())), -want, SMAX);
+                    chk("compare:cstr:caller-storage", sgn(oa->compare(pb.p)), want, SMAX);
+                    for (int k = 0; k < 3; ++k) {
+                        chk("compare_n:static:caller-storage", sgn(B::compare(pa.p, a.size(), pb.p, b.size(), lims[k])), wn[k], lims[k]);
+                        chk("compare_n:cstr:caller-storage", sgn(oa->compare_n(pb.p, lims[k])), wn[k], lims[k]);
+                    }
+                    chk("compare:static:caller-storage:object-overload-agrees", sgn(oa->compare(*ob)), sgn(B::compare(pa.p, a.size(), pb.p, b.size())), SMAX);
+                    n_calls += 10;
+                }
+            }
+            ++n_pairs;
+        }
+    vrt::count(std::string("alignment.buffer.cases.") + tn);
+    vrt::count("alignment.buffer.pairs", n_pairs);
+    vrt::count("alignment.buffer.calls", n_calls);
+    vrt::distinct(vrt::fnv1a(base.data(), base.size() * sizeof(T), vrt::fnv_str(tn, 42)));
+}
+
+template <typename T>
+static void buffer_phase(const char *tn, std::vector<T> alpha)
+{
+    alpha.erase(std::remove(alpha.begin(), alpha.end(), T()), alpha.end());        // C-string operands: no zero unit
+    const std::string name = std::string("alignment_buffer_") + tn;
+    vrt::require(std::string("alignment.buffer.cases.") + tn, std::max<uint64_t>(1, static_cast<uint64_t>(130 * std::min(1.0, vrt::opt().scale))));
+    vrt::phase(name.c_str(), vrt::tier_count(130, 130 * 12), [&](uint64_t i, Rng &r) { buffer_case<T>(tn, alpha, i, r); });
+}
+
+} // namespace al
+
+// ---------------------------------------------------------------- same_storage phases
+// 3..6 different texts of IDENTICAL size that share their first and last 16 units and differ in the middle in ways that change
+// the answers (another letter, the other case, a byte >= 0x80; the same text again), each put at the SAME ADDRESS before the
+// library is asked: the object is destroyed and its successor built right away with the release of the object block and of its
+// heap block forced into the re-issue pools (rt/vrt_st.h, rt/vrt_alloc.h), or assigned over; C-string / (pointer, length)
+// operands sit in one caller block that is rewritten in place.  What a successor hashes to is compared with the hash of an
+// equal string built elsewhere and alive during the whole case; order and equality against a fixed partner go through the
+// per-pair monitors.  The order of the operations changes from text to text.
+namespace ss {
+
+static const size_t sizes[] = {64, 65, 71, 100, 128, 256, 300, 1024, 1500, 4096, 5000};
+static const size_t NS = sizeof(sizes) / sizeof(sizes[0]);
+
+enum Direct { D_HASH, D_HASH_I, D_STD_HASH, D_COMPARE, D_COMPARE_REV, D_EQ, D_NE, D_LT, D_LT_REV, D_COMPARE_I, D_COMPARE_I_REV, D_EQUAL_I, D_LESS_I, D_COMPARE_N, D_COMPARE_NI,
+              D_CSTR, D_CSTR_I, D_CSTR_EQ, D_CSTR_N, D_CSTR_NI, D_OBJ_CSTR, D_OBJ_CSTR_I, D_OBJ_CSTR_NE, D_OWN_CSTR, N_DIRECT };
+static const char *const direct_name[] = {"hash", "hash_i", "std::hash", "compare(string)", "compare(string):reversed", "operator==", "operator!=", "operator<", "operator<:reversed", "compare_i(string)",
+                                          "compare_i(string):reversed", "equal_i", "less_i", "compare_n(string)", "compare_ni(string)", "compare(cstr_rewritten_in_place)", "compare_i(cstr_rewritten_in_place)",
+                                          "operator==(cstr_rewritten_in_place)", "compare_n(cstr_rewritten_in_place)", "compare_ni(char8_t_rewritten_in_place)", "compare(cstr)", "compare_i(cstr)",
+                                          "operator!=(char8_t)", "compare(own_c_str)"};
+
+static std::vector<size_t> hot_positions(Rng &r, size_t N)
+{
+    std::vector<size_t> h = {16, 17, 23, 24, N / 2, N - 17, N - 18, N - 24, N - 25};
+    for (int k = 0; k < 3; ++k) h.push_back(16 + r.below(N - 32));
+    if (N > 4096) h.push_back(std::min(N - 17, 16 + scale::offset_any(r, N - 33)));
+    std::sort(h.begin(), h.end());
+    h.erase(std::unique(h.begin(), h.end()), h.end());
+    return h;
+}
+
+static void string_case(uint64_t i, Rng &r)
+{
+    CtxGuard guard;
+    const bool big = i % 48 == 47;
+    const size_t N = big ? (size_t(1) << 20) + (r.chance(1, 2) ? 0 : r.below(3)) : sizes[i % NS];
+    const size_t m = big ? 3 : 3 + r.below(4);
+    const std::vector<size_t> hot = hot_positions(r, N);
+    S base = sc::background(r, N, static_cast<unsigned>(r.below(6)));
+    for (size_t h : hot) base[h] = static_cast<char>('a' + r.below(26));
+    std::vector<S> content(m, base);
+    uint64_t n_same = 0, n_case = 0;
+    for (size_t k = 1; k < m; ++k) {
+        content[k] = content[r.below(k)];
+        S &s = content[k];
+        auto other_letter = [&](size_t h) { char c; do c = static_cast<char>('a' + r.below(26)); while (ref::fold(static_cast<unsigned char>(s[h])) == static_cast<unsigned char>(c)); s[h] = r.chance(1, 3) ? static_cast<char>(c - 32) : c; };
+        switch (r.below(7)) {
+        case 0: ++n_same; break;                                                                       // the same text again
+        case 1: case 2: for (size_t n = 1 + r.below(3); n-- > 0;) { const size_t h = r.pick(hot); if (sc::is_letter(static_cast<unsigned char>(s[h]))) s[h] ^= 0x20; } ++n_case; break;
+        case 3: case 4: other_letter(r.pick(hot)); break;
+        case 5: other_letter(r.pick(hot)); other_letter(r.pick(hot)); break;
+        default: s[r.pick(hot)] = static_cast<char>(0x80 + r.below(0x80)); break;
+        }
+    }
+    const size_t p = r.below(m);
+    const std::string where = sfmt(" [same_storage: %zu texts of %zu bytes with the same first and last 16 bytes, differing at some of %zu places in %zu..%zu; partner is text %zu]",
+                                   m, N, hot.size(), hot.front(), hot.back(), p);
+    vrt::cur_printf("%s base %s\n", where.c_str(), scale::brief(base).c_str());
+
+    // equal strings built elsewhere, alive during the whole case, and what they hash to
+    std::vector<std::unique_ptr<vrt::Box<ST::string>>> tw;
+    std::vector<size_t> H(m), HI(m), SH(m);
+    std::vector<S> fold(m);
+    for (size_t k = 0; k < m; ++k) {
+        tw.emplace_back(new vrt::Box<ST::string>(vrt::mk(content[k])));
+        H[k] = ST::hash()(**tw[k]);
+        HI[k] = ST::hash_i()(**tw[k]);
+        SH[k] = std::hash<ST::string>()(**tw[k]);
+        fold[k] = ref::folded(content[k]);
+    }
+    auto text = [&](size_t k) { return sfmt("#%zu %s", k, scale::brief(content[k], scale::first_diff(content[k], base) == S::npos ? N / 2 : scale::first_diff(content[k], base)).c_str()); };
+    for (size_t j = 0; j < m; ++j)
+        for (size_t k = 0; k < j; ++k) {
+            vrt::evals(2);
+            if (content[j] == content[k] && (H[j] != H[k] || SH[j] != SH[k])) vrt::violation("C06:hash:equal-strings", sfmt("a=%s b=%s%s", text(j).c_str(), text(k).c_str(), where.c_str()));
+            if (fold[j] == fold[k] && HI[j] != HI[k]) vrt::violation("C06:hash_i:fold-equal-strings", sfmt("a=%s b=%s%s", text(j).c_str(), text(k).c_str(), where.c_str()));
+        }
+
+    std::vector<size_t> lims = {0, 16, N - 16, N, N + 1, SMAX};
+    for (size_t h : hot) { lims.push_back(h); lims.push_back(h + 1); }
+    while (lims.size() > (big ? 5u : 14u)) lims.erase(lims.begin() + static_cast<long>(r.below(lims.size())));
+    const std::vector<size_t> few = {SMAX, r.pick(hot) + 1};
+
+    Placed<char> blk(N, true, r.below(16));
+    size_t blk_holds = m;
+    std::optional<vrt::Box<ST::string>> obj;
+    size_t holds = m;                               // which text the object holds
+    enum Op { HASH, HASH_I, PAIR, PAIR_REV, BLOCK, CASEMAP, TWIN, N_OPS };
+    const unsigned direct_kind = static_cast<unsigned>(i % (N_DIRECT + 6) < N_DIRECT ? i % (N_DIRECT + 6) : (i % (N_DIRECT + 6) - N_DIRECT) % 3);      // the three hashes more often
+    const size_t direct_n = r.chance(1, 3) ? SMAX : r.chance(1, 2) ? r.pick(hot) + 1 : N;
+    size_t fixed_holds = r.below(m);
+    Placed<char> fixed(content[fixed_holds], true, r.below(16));         // a caller block that is NOT rewritten
+    // one library call on the object holding text c (and the partner / a caller block), compared with the reference
+    auto direct = [&](const ST::string &o, size_t c) {
+        const ST::string &P = **tw[p];
+        const S &a = content[c], &b = content[p];
+        const std::string ex = sfmt("a single %s call, the first after the same call on the predecessor; n=%zu", direct_name[direct_kind], direct_n);
+        const size_t na = std::min(direct_n, N);
+        switch (direct_kind) {
+        case D_HASH: EXPECT_EQ("hash:equal-string-built-elsewhere", ST::hash()(o) == H[c], 1, ex); break;
+        case D_HASH_I: EXPECT_EQ("hash_i:equal-string-built-elsewhere", ST::hash_i()(o) == HI[c], 1, ex); break;
+        case D_STD_HASH: EXPECT_EQ("std::hash:equal-string-built-elsewhere", std::hash<ST::string>()(o) == SH[c], 1, ex); break;
+        case D_COMPARE: EXPECT_EQ("compare:sign", sgn(o.compare(P)), ref::compare(a, b), ex); break;
+        case D_COMPARE_REV: EXPECT_EQ("compare:sign", sgn(P.compare(o)), ref::compare(b, a), ex); break;
+        case D_EQ: EXPECT_EQ("operator==", o == P, a == b, ex); break;
+        case D_NE: EXPECT_EQ("operator!=", P != o, a != b, ex); break;
+        case D_LT: EXPECT_EQ("operator<", o < P, ref::compare(a, b) < 0, ex); break;
+        case D_LT_REV: EXPECT_EQ("operator<", P < o, ref::compare(b, a) < 0, ex); break;
+        case D_COMPARE_I: EXPECT_EQ("compare_i:zero-iff-fold-equal", o.compare_i(P) == 0, fold[c] == fold[p], ex); break;
+        case D_COMPARE_I_REV: EXPECT_EQ("compare_i:zero-iff-fold-equal", P.compare_i(o) == 0, fold[c] == fold[p], ex); break;
+        case D_EQUAL_I: EXPECT_EQ("equal_i", ST::equal_i()(o, P), fold[c] == fold[p], ex); break;
+        case D_LESS_I: EXPECT_EQ("less_i:irreflexive-on-fold-equal", ST::less_i()(o, P) && fold[c] == fold[p], 0, ex); break;
+        case D_COMPARE_N: EXPECT_EQ("compare_n:sign", sgn(o.compare_n(P, direct_n)), prefix_compare(a, na, b, na), ex); break;
+        case D_COMPARE_NI: EXPECT_EQ("compare_ni:zero-iff-fold-equal", o.compare_ni(P, direct_n) == 0, prefix_fold_equal(a, na, b, na), ex); break;
+        // the partner against the caller block, which is rewritten in place with this text right before the call
+        case D_CSTR: blk.put(a.data()); blk_holds = c; EXPECT_EQ("compare:cstr:caller-storage", sgn(P.compare(blk.p)), ref::compare(b, a), ex); break;
+        case D_CSTR_I: blk.put(a.data()); blk_holds = c; EXPECT_EQ("compare_i:cstr:caller-storage:zero-iff-fold-equal", P.compare_i(blk.p) == 0, fold[c] == fold[p], ex); break;
+        case D_CSTR_EQ: blk.put(a.data()); blk_holds = c; EXPECT_EQ("operator==:cstr:caller-storage", P == blk.p, a == b, ex); break;
+        case D_CSTR_N: blk.put(a.data()); blk_holds = c; EXPECT_EQ("compare_n:cstr:caller-storage", sgn(P.compare_n(blk.p, direct_n)), prefix_compare(b, na, a, na), ex); break;
+        case D_CSTR_NI: blk.put(a.data()); blk_holds = c; EXPECT_EQ("compare_ni:cstr:caller-storage:zero-iff-fold-equal", P.compare_ni(reinterpret_cast<const char8_t *>(blk.p), direct_n) == 0, prefix_fold_equal(b, na, a, na), ex); break;
+        // the object against a caller block that stays as it is
+        case D_OBJ_CSTR: EXPECT_EQ("compare:cstr:caller-storage", sgn(o.compare(fixed.p)), ref::compare(a, content[fixed_holds]), ex); break;
+        case D_OBJ_CSTR_I: EXPECT_EQ("compare_i:cstr:caller-storage:zero-iff-fold-equal", o.compare_i(fixed.p) == 0, fold[c] == fold[fixed_holds], ex); break;
+        case D_OBJ_CSTR_NE: EXPECT_EQ("operator!=:char8_t:caller-storage", o != reinterpret_cast<const char8_t *>(fixed.p), a != content[fixed_holds], ex); break;
+        default: EXPECT_EQ("compare:own-c_str", o.compare(o.c_str()), 0, ex); break;
+        }
+    };
+    const size_t steps = m + (big ? 0 : r.below(3));
+    for (size_t step = 0; step < steps; ++step) {
+        const size_t c = step < m ? step : r.below(m);
+        // ---- the successor, at the address of its predecessor
+        bool same_heap = false, same_obj = false;
+        const bool differs = holds < m && content[holds] != content[c];
+        if (obj && !big && r.chance(1, 4)) {
+            **obj = vrt::mk(content[c]);            // assigned over: same object, new heap block
+            same_obj = true;
+            vrt::count("same_storage.string.successors_assigned_over");
+        } else {
+            const void *old_obj = obj ? static_cast<const void *>(obj->p) : nullptr;
+            const void *old_heap = obj ? static_cast<const void *>((*obj)->c_str()) : nullptr;
+            if (obj) { vrt::placement_force_parks() = 4; obj.reset(); }
+            obj.emplace(vrt::mk(content[c]));
+            vrt::placement_force_parks() = 0;
+            if (old_obj) {
+                same_obj = obj->p == old_obj;
+                same_heap = (*obj)->c_str() == old_heap;
+                vrt::count("same_storage.string.successors_rebuilt");
+                if (same_obj) vrt::count("same_storage.string.object_at_the_address_of_its_predecessor");
+                if (same_heap) vrt::count("same_storage.string.heap_block_at_the_address_of_its_predecessor");
+                if (same_heap && differs) vrt::count("same_storage.string.different_text_in_the_same_heap_block");
+                if (same_heap && big) vrt::count("same_storage.string.heap_block_of_1MiB_at_the_address_of_its_predecessor");
+            }
+        }
+        const std::string was = holds < m ? sfmt(" predecessor: text #%zu (object %s, heap block %s address)", holds, same_obj ? "at the same" : "at another", same_heap ? "at the same" : "at another") : std::string(" first text");
+        holds = c;
+        const ST::string &o = **obj;
+
+        std::vector<int> ops = {HASH, HASH_I, PAIR, BLOCK, CASEMAP};
+        if (!big) { ops.push_back(PAIR_REV); ops.push_back(TWIN); }
+        for (size_t k = ops.size(); k > 1; --k) std::swap(ops[k - 1], ops[r.below(k)]);
+        if (big && step > 0) ops.erase(std::find(ops.begin(), ops.end(), static_cast<int>(CASEMAP)));
+        // ONE call of the case's chosen entry point is the first thing that happens to a successor - and was the last thing that
+        // happened to its predecessor (same entry point, same addresses, same sizes, another text)
+        ctx() = sfmt(" text %s;%s%s", text(c).c_str(), was.c_str(), where.c_str());
+        if (step > 0) {
+            direct(o, c);
+            if (differs && (same_heap || (direct_kind >= D_CSTR && direct_kind < D_OBJ_CSTR))) vrt::count(sfmt("same_storage.string.last_call_on_predecessor_is_first_on_successor.%s", direct_name[direct_kind]));
+        }
+        for (int op : ops) {
+            ctx() = sfmt(" text %s;%s%s", text(c).c_str(), was.c_str(), where.c_str());
+            switch (op) {
+            case HASH: {
+                const size_t h1 = ST::hash()(o), h2 = std::hash<ST::string>()(o);
+                vrt::evals(2);
+                if (h1 != H[c]) vrt::violation("C06:hash:equal-string-built-elsewhere", sfmt("got=%016zx want=%016zx%s", h1, H[c], ctx().c_str()));
+                if (h2 != SH[c]) vrt::violation("C06:std::hash:equal-string-built-elsewhere", sfmt("got=%016zx want=%016zx%s", h2, SH[c], ctx().c_str()));
+                break;
+            }
+            case HASH_I: {
+                const size_t h1 = ST::hash_i()(o);
+                vrt::evals();
+                if (h1 != HI[c]) vrt::violation("C06:hash_i:equal-string-built-elsewhere", sfmt("got=%016zx want=%016zx%s", h1, HI[c], ctx().c_str()));
+                break;
+            }
+            case PAIR: string_pair(o, content[c], **tw[p], content[p], true, big ? &few : &lims); vrt::count("same_storage.string.pairs"); break;
+            case PAIR_REV: string_pair(**tw[p], content[p], o, content[c], true, &lims); vrt::count("same_storage.string.pairs"); break;
+            case BLOCK: {
+                // the caller block rewritten in place, as the right operand of the fixed partner and of the object
+                size_t nb = r.below(m);
+                if (nb == blk_holds) nb = (nb + 1) % m;
+                blk.put(content[nb].data());
+                if (blk_holds < m) vrt::count("same_storage.caller_block_rewritten_in_place");
+                blk_holds = nb;
+                ctx() = sfmt(" caller block holds text %s; left operand is the partner;%s", text(nb).c_str(), where.c_str());
+                pointer_operand(**tw[p], content[p], tw[nb]->p, content[nb], blk.p, big ? few : lims);
+                ctx() = sfmt(" caller block holds text %s; left operand is text %s;%s%s", text(nb).c_str(), text(c).c_str(), was.c_str(), where.c_str());
+                pointer_operand(o, content[c], tw[nb]->p, content[nb], blk.p, big ? few : lims);
+                break;
+            }
+            case CASEMAP: case_map(o, content[c]); break;
+            default: string_pair(o, content[c], **tw[c], content[c], false); vrt::count("same_storage.string.pairs"); break;
+            }
+        }
+        ctx() = sfmt(" text %s;%s%s", text(c).c_str(), was.c_str(), where.c_str());
+        direct(o, c);
+        if (big) {
+            vrt::evals(2);
+            if (!(o == **tw[c]) || o.compare(**tw[c]) != 0) vrt::violation("C06:compare:equal-string-built-elsewhere", ctx());
+        }
+        vrt::count("same_storage.string.texts");
+        if (vrt::str_of(o) != content[c]) vrt::violation("C06:operand-changed", ctx());
+    }
+    ctx().clear();
+    // the strings built elsewhere still hash to what they did
+    for (size_t k = 0; k < m; ++k) {
+        vrt::evals(2);
+        if (ST::hash()(**tw[k]) != H[k] || ST::hash_i()(**tw[k]) != HI[k]) vrt::violation("C06:hash:same-object-twice", sfmt("%s%s", text(k).c_str(), where.c_str()));
+    }
+    vrt::count("same_storage.string.cases");
+    vrt::count("same_storage.string.same_text_again", n_same);
+    vrt::count("same_storage.string.fold_equal_successors", n_case);
+    if (big) vrt::count("same_storage.string.cases_of_1MiB");
+    vrt::distinct(vrt::fnv1a(content[m - 1].data(), N, vrt::fnv1a(base.data(), N, 43)));
+    if (vrt::want_sample("same_storage")) vrt::sample("same_storage", "base " + scale::brief(base) + where);
+}
+
+enum BDirect { B_COMPARE, B_COMPARE_REV, B_EQ, B_NE, B_LT, B_LT_REV, B_COMPARE_N, B_STATIC, B_STATIC_N, B_CSTR, B_CSTR_N, B_OBJ_CSTR, B_OBJ_CSTR_N, N_BDIRECT };
+static const char *const bdirect_name[] = {"compare(buffer)", "compare(buffer):reversed", "operator==", "operator!=", "operator<", "operator<:reversed", "compare_n(buffer)", "compare:static(block_rewritten_in_place)",
+                                           "compare_n:static(block_rewritten_in_place)", "compare(cstr_rewritten_in_place)", "compare_n(cstr_rewritten_in_place)", "compare(cstr)", "compare_n(cstr)"};
+
+template <typename T>
+static void buffer_case(const char *tn, const std::vector<T> &alpha, uint64_t i, Rng &r)
+{
+    typedef ST::buffer<T> B;
+    typedef std::basic_string<T> BS;
+    CtxGuard guard;
+    static const size_t bsizes[] = {64, 65, 100, 256, 300, 1024, 4096};
+    const bool big = i % 30 == 29;
+    const size_t N = big ? (size_t(1) << 20) / sizeof(T) : r.pick(bsizes) / (i % 3 == 2 ? sizeof(T) : 1) + (i % 3 == 2 ? 48 : 0);
+    const size_t m = big ? 3 : 3 + r.below(4);
+    const std::vector<size_t> hot = hot_positions(r, N);
+    BS base(N, alpha[r.below(alpha.size())]);
+    if (r.chance(2, 3)) for (auto &c : base) c = alpha[r.next() % alpha.size()];
+    std::vector<BS> content(m, base);
+    for (size_t k = 1; k < m; ++k) {
+        content[k] = content[r.below(k)];
+        if (r.chance(1, 6)) continue;                                                                    // the same value again
+        for (size_t n = 1 + r.below(2); n-- > 0;) {
+            const size_t h = r.pick(hot);
+            T y = alpha[r.below(alpha.size() - 1)];
+            if (y == content[k][h]) y = alpha[alpha.size() - 1];
+            content[k][h] = y;
+        }
+    }
+    const size_t p = r.below(m);
+    const std::string where = sfmt(" [same_storage: buffer<%s>, %zu values of %zu units with the same first and last 16 units, differing at some of %zu places in %zu..%zu; partner is value %zu]",
+                                   tn, m, N, hot.size(), hot.front(), hot.back(), p);
+    vrt::cur_printf("%s\n", where.c_str());
+    vrt::Box<B> partner(content[p].data(), N);
+    std::vector<size_t> lims = {0, 16, N - 16, N, N + 1, SMAX};
+    for (size_t h : hot) { lims.push_back(h); lims.push_back(h + 1); }
+    while (lims.size() > (big ? 4u : 12u)) lims.erase(lims.begin() + static_cast<long>(r.below(lims.size())));
+    Placed<T> lblk(N, false, r.below(16)), rblk(N, true, r.below(16));
+    size_t lholds = m, rholds = m;
+    std::optional<vrt::Box<B>> obj;
+    size_t holds = m;
+    const unsigned direct_kind = static_cast<unsigned>(i % N_BDIRECT);
+    const size_t direct_n = r.chance(1, 3) ? SMAX : r.chance(1, 2) ? r.pick(hot) + 1 : N;
+    const size_t fixed_holds = r.below(m);
+    Placed<T> fixed(content[fixed_holds], true, r.below(16));            // a caller block that is NOT rewritten
+    // one library call on the object holding value c (and the partner / the caller blocks), compared with the reference
+    auto direct = [&](size_t c) {
+        const B &o = **obj, &P = *partner;
+        const BS &a = content[c], &b = content[p];
+        const size_t nn = std::min(direct_n, N);
+        long got = 0, want = 0;
+        switch (direct_kind) {
+        case B_COMPARE: got = sgn(o.compare(P)); want = ref_cmp(a, b); break;
+        case B_COMPARE_REV: got = sgn(P.compare(o)); want = ref_cmp(b, a); break;
+        case B_EQ: got = o == P; want = a == b; break;
+        case B_NE: got = P != o; want = a != b; break;
+        case B_LT: got = o < P; want = ref_cmp(a, b) < 0; break;
+        case B_LT_REV: got = P < o; want = ref_cmp(b, a) < 0; break;
+        case B_COMPARE_N: got = sgn(o.compare_n(P, direct_n)); want = ref_cmp(a, nn, b, nn); break;
+        // the caller blocks, the right one rewritten in place with this value right before the call
+        case B_STATIC: rblk.put(a.data()); rholds = c; if (lholds >= m) { lblk.put(b.data()); lholds = p; } got = sgn(B::compare(lblk.p, N, rblk.p, N)); want = ref_cmp(content[lholds], a); break;
+        case B_STATIC_N: rblk.put(a.data()); rholds = c; if (lholds >= m) { lblk.put(b.data()); lholds = p; } got = sgn(B::compare(rblk.p, N, lblk.p, N, direct_n)); want = ref_cmp(a, nn, content[lholds], nn); break;
+        case B_CSTR: rblk.put(a.data()); rholds = c; got = sgn(P.compare(rblk.p)); want = ref_cmp(b, a); break;
+        case B_CSTR_N: rblk.put(a.data()); rholds = c; got = sgn(P.compare_n(rblk.p, direct_n)); want = ref_cmp(b, nn, a, nn); break;
+        // the object against a caller block that stays as it is
+        case B_OBJ_CSTR: got = sgn(o.compare(fixed.p)); want = ref_cmp(a, content[fixed_holds]); break;
+        default: got = sgn(o.compare_n(fixed.p, direct_n)); want = ref_cmp(a, nn, content[fixed_holds], nn); break;
+        }
+        vrt::evals();
+        if (got != want)
+            vrt::violation(sfmt("C06:buffer<%s>:same-storage:%s", tn, bdirect_name[direct_kind]),
+                           sfmt("got=%ld want=%ld n=%zu; a single call, the first after the same call on the predecessor;%s", got, want, direct_n, ctx().c_str()));
+    };
+    const size_t steps = m + (big ? 0 : r.below(3));
+    for (size_t step = 0; step < steps; ++step) {
+        const size_t c = step < m ? step : r.below(m);
+        bool same_heap = false, same_obj = false;
+        if (obj && !big && r.chance(1, 4)) {
+            if (r.chance(1, 2)) **obj = B(content[c].data(), N);
+            else { B src(content[c].data(), N); **obj = src; }
+            same_obj = true;
+            vrt::count("same_storage.buffer.successors_assigned_over");
+        } else {
+            const void *old_obj = obj ? static_cast<const void *>(obj->p) : nullptr;
+            const void *old_heap = obj ? static_cast<const void *>((*obj)->data()) : nullptr;
+            if (obj) { vrt::placement_force_parks() = 4; obj.reset(); }
+            obj.emplace(content[c].data(), N);
+            vrt::placement_force_parks() = 0;
+            if (old_obj) {
+                same_obj = obj->p == old_obj;
+                same_heap = (*obj)->data() == old_heap;
+                vrt::count("same_storage.buffer.successors_rebuilt");
+                if (same_obj) vrt::count("same_storage.buffer.object_at_the_address_of_its_predecessor");
+                if (same_heap) vrt::count("same_storage.buffer.heap_block_at_the_address_of_its_predecessor");
+                if (same_heap && holds < m && content[holds] != content[c]) vrt::count("same_storage.buffer.different_value_in_the_same_heap_block");
+            }
+        }
+        const std::string was = holds < m ? sfmt(" value #%zu after value #%zu (object %s, heap block %s address)", c, holds, same_obj ? "at the same" : "at another", same_heap ? "at the same" : "at another") : sfmt(" value #%zu, the first", c);
+        const bool differs = holds < m && content[holds] != content[c];
+        holds = c;
+        ctx() = was + where;
+        if (step > 0) {
+            direct(c);
+            if (differs && (same_heap || (direct_kind >= B_STATIC && direct_kind <= B_CSTR_N))) vrt::count(sfmt("same_storage.buffer.last_call_on_predecessor_is_first_on_successor.%s", bdirect_name[direct_kind]));
+        }
+        int order[3] = {0, 1, 2};
+        for (int k = 3; k > 1; --k) std::swap(order[k - 1], order[r.below(static_cast<uint64_t>(k))]);
+        for (int op : order) {
+            ctx() = was + where;
+            if (op == 0) buffer_objs<T>(tn, obj->p, content[c], partner.p, content[p], &lims, false);
+            else if (op == 1) { if (!big) buffer_objs<T>(tn, partner.p, content[p], obj->p, content[c], &lims, false); }
+            else {
+                // both caller blocks rewritten in place
+                size_t nl = r.below(m), nr = r.below(m);
+                if (nl == lholds) nl = (nl + 1) % m;
+                if (nr == rholds) nr = (nr + 1) % m;
+                lblk.put(content[nl].data());
+                rblk.put(content[nr].data());
+                if (lholds < m) vrt::count("same_storage.caller_block_rewritten_in_place", 2);
+                lholds = nl; rholds = nr;
+                auto chk = [&](const char *what, int got, int w, size_t n) {
+                    vrt::evals();
+                    if (got != w)
+                        vrt::violation(sfmt("C06:buffer<%s>:%s", tn, what), sfmt("got=%d want=%d n=%zu; caller blocks (rewritten in place, addresses = %u and %u modulo 16) hold values #%zu and #%zu; object holds%s%s",
+                                                                                 got, w, n, lblk.mod16(), rblk.mod16(), nl, nr, was.c_str(), where.c_str()));
+                };
+                const int want = ref_cmp(content[nl], content[nr]);
+                chk("compare:static:caller-storage", sgn(B::compare(lblk.p, N, rblk.p, N)), want, SMAX);
+                chk("compare:static:caller-storage:antisymmetry", sgn(B::compare(rblk.p, N, lblk.p, N)), -want, SMAX);
+                chk("compare:cstr:caller-storage", sgn((*obj)->compare(rblk.p)), ref_cmp(content[c], content[nr]), SMAX);
+                chk("compare:cstr:caller-storage", sgn(partner->compare(rblk.p)), ref_cmp(content[p], content[nr]), SMAX);
+                for (size_t n : lims) {
+                    const size_t nn = std::min(n, N);
+                    chk("compare_n:static:caller-storage", sgn(B::compare(lblk.p, N, rblk.p, N, n)), ref_cmp(content[nl], nn, content[nr], nn), n);
+                    chk("compare_n:cstr:caller-storage", sgn((*obj)->compare_n(rblk.p, n)), ref_cmp(content[c], nn, content[nr], nn), n);
+                }
+            }
+        }
+        ctx() = was + where;
+        direct(c);
+        vrt::count("same_storage.buffer.values");
+    }
+    ctx().clear();
+    vrt::count(std::string("same_storage.buffer.cases.") + tn);
+    if (big) vrt::count("same_storage.buffer.cases_of_1MiB");
+    vrt::distinct(vrt::fnv1a(content[m - 1].data(), N * sizeof(T), vrt::fnv_str(tn, 44)));
+}
+
+template <typename T>
+static void buffer_phase(const char *tn, std::vector<T> alpha)
+{
+    alpha.erase(std::remove(alpha.begin(), alpha.end(), T()), alpha.end());
+    const std::string name = std::string("same_storage_buffer_") + tn;
+    vrt::require(std::string("same_storage.buffer.cases.") + tn, std::max<uint64_t>(1, static_cast<uint64_t>(240 * std::min(1.0, vrt::opt().scale))));
+    vrt::phase(name.c_str(), vrt::tier_count(240, 240 * 20), [&](uint64_t i, Rng &r) { buffer_case<T>(tn, alpha, i, r); });
+}
+
+} // namespace ss
+
+// ---------------------------------------------------------------- soak phase
+// More than 70000 consecutive calls of every entry-point family inside ONE case (one process, one thread) on strings of
+// 64..300 bytes: families of 8 texts of one length (the base text, an equal one, a fold-equal one, one that differs in the
+// middle, one that differs by a byte >= 0x80 in its last 1..7 bytes, one that differs at index 8..15, a proper prefix, one that
+// differs in case only in its last 1..7 bytes), an equal string per text built elsewhere and kept alive (what a fresh object
+// hashes to must be what that one hashed to), the left operand rebuilt for every call (at the address of its predecessor when
+// the size is the same), the C-string operand in a per-family caller block rewritten in place.  Runs of 64..300 calls with
+// the same (pure ASCII, equal) arguments are followed directly by one whose operand differs only at its very end.
+namespace soak {
+
+enum { MEMBERS = 8, FAMILIES = 24 };
+struct Family {
+    size_t len;
+    bool ascii;
+    S text[MEMBERS];
+    int sign[MEMBERS][MEMBERS];
+    bool feq[MEMBERS][MEMBERS];
+    size_t H[MEMBERS], HI[MEMBERS];
+    std::unique_ptr<vrt::Box<ST::string>> tw[MEMBERS];
+    std::unique_ptr<Placed<char>> full, shorter;
+};
+
+static void one_case(uint64_t, Rng &r)
+{
+    const uint64_t NIT = vrt::thorough() ? 150000 : 72000;
+    std::vector<Family> fam(FAMILIES);
+    for (size_t f = 0; f < FAMILIES; ++f) {
+        Family &F = fam[f];
+        F.len = 64 + r.below(237);
+        F.ascii = f % 3 == 0;
+        S base = F.ascii ? S(F.len, 'x') : sc::background(r, F.len, static_cast<unsigned>(1 + r.below(5)));
+        if (F.ascii) for (auto &c : base) c = static_cast<char>('a' + r.below(26));
+        const size_t L = F.len, mid = 16 + r.below(L - 32), tail = 1 + r.below(7);
+        base[mid] = 'm'; base[L - tail] = 'q'; base[8 + f % 8] = 'k';
+        for (auto &t : F.text) t = base;
+        for (size_t k = 16; k + 16 < L; k += 1 + r.below(9)) if (sc::is_letter(static_cast<unsigned char>(base[k]))) F.text[2][k] ^= 0x20;
+        F.text[2][mid] = 'M';
+        F.text[3][mid] = r.chance(1, 2) ? 'p' : 'c';
+        F.text[4][L - tail] = static_cast<char>(0xC0 + r.below(0x40));
+        F.text[5][8 + f % 8] = r.chance(1, 2) ? 'z' : 'K';
+        F.text[6] = base.substr(0, L - 1 - r.below(9));
+        F.text[7][L - tail] = 'Q';
+        for (int x = 0; x < MEMBERS; ++x) {
+            F.tw[x].reset(new vrt::Box<ST::string>(vrt::mk(F.text[x])));
+            F.H[x] = ST::hash()(**F.tw[x]);
+            F.HI[x] = ST::hash_i()(**F.tw[x]);
+            for (int y = 0; y < MEMBERS; ++y) { F.sign[x][y] = ref::compare(F.text[x], F.text[y]); F.feq[x][y] = ref::folded(F.text[x]) == ref::folded(F.text[y]); }
+        }
+        F.full.reset(new Placed<char>(L, true, r.below(16)));
+        F.shorter.reset(new Placed<char>(F.text[6].size(), true, r.below(16)));
+    }
+    uint64_t n_compare = 0, n_compare_i = 0, n_hash = 0, n_hash_i = 0, n_cstr = 0, n_n = 0, n_rebuilt_same_heap = 0, n_runs = 0, n_after_run = 0, n_block_rewrites = 0, n_static = 0;
+    std::optional<vrt::Box<ST::string>> obj;
+    size_t cur_f = FAMILIES, cur_x = 0;
+    uint64_t t = 0;
+    auto fail = [&](const char *what, size_t f, int x, int y, long got, long want, const std::string &extra) {
+        vrt::violation(sfmt("C06:%s", what), sfmt("a=%s b=%s got=%ld want=%ld %s [soak: call group %llu of the case, texts %d and %d of a family of %zu-byte texts]", show(fam[f].text[x]).c_str(), show(fam[f].text[y]).c_str(),
+                                                  got, want, extra.c_str(), static_cast<unsigned long long>(t), x, y, fam[f].len));
+    };
+#define SOAK(what, got, want, extra) do { const long g__ = static_cast<long>(got), w__ = static_cast<long>(want); if (g__ != w__) fail(what, f, x, y, g__, w__, extra); } while (0)
+    // one group of calls: the object holds text x of family f (rebuilt when asked), the right operand is the string built
+    // elsewhere for text y, the C string is the family's caller block holding text y
+    auto group = [&](size_t f, int x, int y, bool rebuild) {
+        Family &F = fam[f];
+        if (rebuild || !obj || cur_f != f || cur_x != static_cast<size_t>(x)) {
+            const void *old_heap = obj ? static_cast<const void *>((*obj)->c_str()) : nullptr;
+            const bool same_size = obj && (*obj)->size() == F.text[x].size();
+            if (obj) { if (same_size) vrt::placement_force_parks() = 4; obj.reset(); }
+            obj.emplace(vrt::mk(F.text[x]));
+            vrt::placement_force_parks() = 0;
+            if (old_heap && (*obj)->c_str() == old_heap) ++n_rebuilt_same_heap;
+            cur_f = f; cur_x = static_cast<size_t>(x);
+        }
+        const ST::string &o = **obj, &w = **F.tw[y];
+        Placed<char> &blk = y == 6 ? *F.shorter : *F.full;
+        if (memcmp(blk.p, F.text[y].data(), F.text[y].size()) != 0 || t == 0) { blk.put(F.text[y].data()); ++n_block_rewrites; }
+        const int want = F.sign[x][y];
+        const bool feq = F.feq[x][y];
+        const bool hash_first = (t & 1) != 0;
+        // ONE call of the entry point of the current stretch is the first and the last thing a group does, so that it runs
+        // back to back on a predecessor and its successor
+        const unsigned echo_kind = static_cast<unsigned>((t / 512) % 13);
+        const size_t echo_n = 8 + (t / 512) % 60;
+        auto echo = [&]() {
+            const size_t ea = std::min(echo_n, F.text[x].size()), eb = std::min(echo_n, F.text[y].size());
+            switch (echo_kind) {
+            case 0: SOAK("compare:sign", sgn(o.compare(w)), want, "back to back"); break;
+            case 1: SOAK("compare:antisymmetry", sgn(w.compare(o)), -want, "back to back"); break;
+            case 2: SOAK("operator==", o == w, want == 0, "back to back"); break;
+            case 3: SOAK("operator<", o < w, want < 0, "back to back"); break;
+            case 4: SOAK("compare_i:zero-iff-fold-equal", o.compare_i(w) == 0, feq, "back to back"); break;
+            case 5: SOAK("equal_i", ST::equal_i()(w, o), feq, "back to back"); break;
+            case 6: SOAK("less_i:irreflexive-on-fold-equal", ST::less_i()(w, o) && feq, 0, "back to back"); break;
+            case 7: SOAK("compare:cstr:caller-storage", sgn(o.compare(blk.p)), want, "back to back"); break;
+            case 8: SOAK("compare_i:cstr:caller-storage:zero-iff-fold-equal", o.compare_i(blk.p) == 0, feq, "back to back"); break;
+            case 9: SOAK("hash:equal-string-built-elsewhere", ST::hash()(o) == F.H[x], 1, "back to back"); break;
+            case 10: SOAK("hash_i:equal-string-built-elsewhere", ST::hash_i()(o) == F.HI[x], 1, "back to back"); break;
+            case 11: SOAK("compare_n:sign", sgn(o.compare_n(w, echo_n)), prefix_compare(F.text[x], ea, F.text[y], eb), sfmt("back to back, n=%zu", echo_n)); break;
+            default: SOAK("compare_ni:cstr:caller-storage:zero-iff-fold-equal", o.compare_ni(blk.p, echo_n) == 0, prefix_fold_equal(F.text[x], ea, F.text[y], eb), sfmt("back to back, n=%zu", echo_n)); break;
+            }
+        };
+        echo();
+        if (hash_first) { SOAK("hash:equal-string-built-elsewhere", ST::hash()(o) == F.H[x], 1, ""); SOAK("hash_i:equal-string-built-elsewhere", ST::hash_i()(o) == F.HI[x], 1, ""); }
+        SOAK("compare:sign", sgn(o.compare(w)), want, "");
+        SOAK("compare:antisymmetry", sgn(w.compare(o)), -want, "");
+        SOAK("operator==", o == w, want == 0, "");
+        SOAK("operator!=", o != w, want != 0, "");
+        SOAK("operator<", o < w, want < 0, "");
+        const int ci = sgn(o.compare_i(w));
+        SOAK("compare_i:zero-iff-fold-equal", ci == 0, feq, "");
+        SOAK("compare_i:antisymmetry", sgn(w.compare_i(o)), -ci, "");
+        SOAK("equal_i", ST::equal_i()(o, w), feq, "");
+        SOAK("less_i", ST::less_i()(o, w), ci < 0, "");
+        SOAK("compare:cstr:caller-storage", sgn(o.compare(blk.p)), want, "");
+        SOAK("operator==:cstr:caller-storage", o == blk.p, want == 0, "");
+        SOAK("compare_i:cstr:caller-storage:string-overload-agrees", sgn(o.compare_i(blk.p)), ci, "");
+        SOAK("compare_i:char8_t:caller-storage:string-overload-agrees", sgn(o.compare_i(reinterpret_cast<const char8_t *>(blk.p))), ci, "");
+        size_t n;
+        switch (r.below(4)) { case 0: n = SMAX; break; case 1: n = F.len - r.below(10); break; case 2: n = 8 + r.below(9); break; default: n = r.below(F.len + 2); break; }
+        const size_t na = std::min(n, F.text[x].size()), nb = std::min(n, F.text[y].size());
+        const int wn = prefix_compare(F.text[x], na, F.text[y], nb);
+        const bool fn = prefix_fold_equal(F.text[x], na, F.text[y], nb);
+        SOAK("compare_n:sign", sgn(o.compare_n(w, n)), wn, sfmt("n=%zu", n));
+        SOAK("compare_n:cstr:caller-storage", sgn(o.compare_n(blk.p, n)), wn, sfmt("n=%zu", n));
+        SOAK("compare_ni:zero-iff-fold-equal", o.compare_ni(w, n) == 0, fn, sfmt("n=%zu", n));
+        SOAK("compare_ni:cstr:caller-storage:zero-iff-fold-equal", o.compare_ni(blk.p, n) == 0, fn, sfmt("n=%zu", n));
+        SOAK("buffer<char>:compare:static:caller-storage", sgn(ST::char_buffer::compare(o.c_str(), o.size(), blk.p, F.text[y].size())), want, "");
+        SOAK("buffer<char>:compare_n:static:caller-storage", sgn(ST::char_buffer::compare(blk.p, F.text[y].size(), o.c_str(), o.size(), n)), -wn, sfmt("n=%zu", n));
+        if (!hash_first) { SOAK("hash:equal-string-built-elsewhere", ST::hash()(o) == F.H[x], 1, ""); SOAK("hash_i:equal-string-built-elsewhere", ST::hash_i()(o) == F.HI[x], 1, ""); }
+        if ((t & 63) == 0) { SOAK("hash:same-object-twice", ST::hash()(w) == F.H[y], 1, ""); SOAK("hash_i:same-object-twice", ST::hash_i()(w) == F.HI[y], 1, ""); }
+        echo();
+        vrt::evals(29);
+        n_compare += 5; n_compare_i += 4; n_hash += 1; n_hash_i += 1; n_cstr += 4; n_n += 4; n_static += 2;
+        ++t;
+    };
+#undef SOAK
+    while (t < NIT) {
+        if (r.chance(1, 700)) {
+            // a run of identical calls on pure-ASCII, equal operands, then one that differs only at its very end - in the
+            // same object storage (the successor has the same size) and in the same caller block
+            size_t f = 3 * r.below(FAMILIES / 3);
+            const int y = r.chance(3, 4) ? 1 : 0;
+            const size_t run = 64 + r.below(237);
+            vrt::cur_printf("soak: call group %llu: %zu groups on the same equal operands of %zu bytes\n", static_cast<unsigned long long>(t), run, fam[f].len);
+            for (size_t k = 0; k < run; ++k) group(f, 0, y, false);
+            static const int interesting[] = {4, 7, 4, 7, 3, 2};
+            const int x2 = r.pick(interesting);
+            group(f, x2, y, true);
+            group(f, 0, r.chance(1, 2) ? x2 : 7, r.chance(1, 2));
+            ++n_runs;
+            n_after_run += 2;
+            continue;
+        }
+        const size_t f = r.chance(1, 3) && cur_f < FAMILIES ? cur_f : r.below(FAMILIES);
+        group(f, static_cast<int>(r.below(MEMBERS)), static_cast<int>(r.below(MEMBERS)), true);
+    }
+    obj.reset();
+    vrt::count("soak.cases");
+    vrt::count("soak.call_groups", t);
+    vrt::count("soak.compare_calls", n_compare);
+    vrt::count("soak.compare_i_calls", n_compare_i);
+    vrt::count("soak.hash_calls", n_hash);
+    vrt::count("soak.hash_i_calls", n_hash_i);
+    vrt::count("soak.cstr_calls", n_cstr);
+    vrt::count("soak.compare_n_calls", n_n);
+    vrt::count("soak.static_buffer_compare_calls", n_static);
+    vrt::count("soak.left_operand_rebuilt_in_the_heap_block_of_its_predecessor", n_rebuilt_same_heap);
+    vrt::count("soak.runs_of_identical_calls", n_runs);
+    vrt::count("soak.calls_directly_after_a_run", n_after_run);
+    vrt::count("soak.caller_block_rewritten_in_place", n_block_rewrites);
+    if (t > 70000) vrt::count("soak.cases_with_more_than_70000_consecutive_calls_per_family");
+    vrt::distinct(vrt::fnv1a(fam[0].text[0].data(), fam[0].len, 45));
+    if (vrt::want_sample("soak"))
+        vrt::sample("soak", sfmt("%llu consecutive call groups in one process (each: compare / == / != / < / compare_i / equal_i / less_i / hash / hash_i / compare_n / compare_ni on ST::string operands, the const char* "
+                                 "forms on a caller block rewritten in place, the static buffer compare) over 24 families of 8 texts of 64..300 bytes; %llu runs of 64..300 identical calls each followed by a call "
+                                 "whose operand differs only at its very end", static_cast<unsigned long long>(t), static_cast<unsigned long long>(n_runs)));
+}
+
+} // namespace soak
+
+static void history_phases()
+{
+    auto need = [](uint64_t n) { const double f = std::min(1.0, vrt::opt().scale); return std::max<uint64_t>(1, static_cast<uint64_t>(static_cast<double>(n) * f)); };
+    const std::vector<char> ac = {'x', 'A', 'a', 0x7f, char(0x80), char(0xff), 1};
+    const std::vector<wchar_t> aw = {L'x', 1, L'A', 0x7f, 0x80, 0xff, 0xd800, 0xffff, 0x10ffff};
+    const std::vector<char16_t> a16 = {u'x', 1, u'A', 0x7f, 0x80, 0xff, 0xd800, 0x8000, 0xffff};
+    const std::vector<char32_t> a32 = {U'x', 1, U'A', 0x7f, 0x80, 0xffff, 0x10ffff, 0x7fffffff, 0x80000000u, 0xffffffffu};
+
+    // ---- alignment
+    vrt::require("alignment.string.cases", need(260));
+    vrt::require("alignment.string.pointer_operands", need(500000));
+    vrt::require("alignment.string.first_difference_at_index_8..16", need(10000));
+    vrt::require("alignment.string.first_difference_in_the_last_16", need(10000));
+    vrt::require("alignment.string.fold_equal_pairs", need(3000));
+    for (unsigned k = 0; k < 16; ++k) vrt::require(sfmt("alignment.string.operand_at_address_mod16=%02u", k), need(30000));
+    for (unsigned v = 0; v < al::N_VARIANTS; ++v) vrt::require(sfmt("alignment.string.difference.%s", al::variant_name[v]), need(2000));
+    vrt::require("alignment.buffer.pairs", need(20000));
+    vrt::require("alignment.buffer.calls", need(1000000));
+    vrt::note("alignment: operands of 16..80 units with identical first 8 bytes whose first (real / case-only / bit-0x20 / high-byte / length) difference sits at each index from 8 on (8..16 "
+              "and the last 16 included for every length); the const char* / char8_t* operand (strings) and both (pointer, length) operands (buffers) at every start address modulo 16 in blocks that end where the "
+              "data ends; results against the reference and against the overload that takes the object holding the same bytes");
+    vrt::phase("alignment", vrt::tier_count(260, 260 * 16), al::string_case);
+    al::buffer_phase<char>("char", ac);
+    al::buffer_phase<wchar_t>("wchar_t", aw);
+    al::buffer_phase<char16_t>("char16_t", a16);
+    al::buffer_phase<char32_t>("char32_t", a32);
+
+    // ---- same_storage
+    vrt::require("same_storage.string.cases", need(800));
+    vrt::require("same_storage.string.texts", need(3000));
+    vrt::require("same_storage.string.pairs", need(7500));
+    vrt::require("same_storage.string.successors_rebuilt", need(1800));
+    vrt::require("same_storage.string.successors_assigned_over", need(300));
+    vrt::require("same_storage.string.object_at_the_address_of_its_predecessor", need(1500));
+    vrt::require("same_storage.string.heap_block_at_the_address_of_its_predecessor", need(1500));
+    vrt::require("same_storage.string.different_text_in_the_same_heap_block", need(1000));
+    for (unsigned k = 0; k < ss::N_DIRECT; ++k) vrt::require(sfmt("same_storage.string.last_call_on_predecessor_is_first_on_successor.%s", ss::direct_name[k]), need(25));
+    vrt::require("same_storage.string.same_text_again", need(180));
+    vrt::require("same_storage.string.fold_equal_successors", need(450));
+    vrt::require("same_storage.string.cases_of_1MiB", need(12));
+    vrt::require("same_storage.string.heap_block_of_1MiB_at_the_address_of_its_predecessor", need(10));
+    vrt::require("same_storage.caller_block_rewritten_in_place", need(2000));
+    vrt::require("same_storage.buffer.values", need(3200));
+    vrt::require("same_storage.buffer.successors_rebuilt", need(1600));
+    vrt::require("same_storage.buffer.successors_assigned_over", need(300));
+    vrt::require("same_storage.buffer.object_at_the_address_of_its_predecessor", need(1400));
+    vrt::require("same_storage.buffer.heap_block_at_the_address_of_its_predecessor", need(1400));
+    vrt::require("same_storage.buffer.different_value_in_the_same_heap_block", need(900));
+    vrt::require("same_storage.buffer.cases_of_1MiB", need(24));
+    for (unsigned k = 0; k < ss::N_BDIRECT; ++k) vrt::require(sfmt("same_storage.buffer.last_call_on_predecessor_is_first_on_successor.%s", ss::bdirect_name[k]), need(25));
+    vrt::note("same_storage: 3..6 texts / buffer values of identical size (64 .. 5000 units, some of 1 MiB) with the same first and last 16 units, one after the other in the same object block and "
+              "heap block (forced re-issue) or assigned over, C-string and (pointer, length) operands in caller blocks rewritten in place; hash / hash_i / std::hash of each successor against "
+              "an equal string built elsewhere, order and equality against a fixed partner through the per-pair monitors, operations in an order that changes from text to text");
+    vrt::phase("same_storage", vrt::tier_count(864, 864 * 20), ss::string_case);
+    ss::buffer_phase<char>("char", ac);
+    ss::buffer_phase<wchar_t>("wchar_t", aw);
+    ss::buffer_phase<char16_t>("char16_t", a16);
+    ss::buffer_phase<char32_t>("char32_t", a32);
+
+    // ---- soak
+    const uint64_t ncases = vrt::tier_count(16, 64);
+    vrt::require("soak.cases", need(ncases));
+    vrt::require("soak.cases_with_more_than_70000_consecutive_calls_per_family", need(ncases));
+    vrt::require("soak.hash_calls", need(ncases * 70000));
+    vrt::require("soak.hash_i_calls", need(ncases * 70000));
+    vrt::require("soak.compare_calls", need(ncases * 70000));
+    vrt::require("soak.compare_i_calls", need(ncases * 70000));
+    vrt::require("soak.cstr_calls", need(ncases * 70000));
+    vrt::require("soak.left_operand_rebuilt_in_the_heap_block_of_its_predecessor", need(ncases * 5000));
+    vrt::require("soak.runs_of_identical_calls", need(ncases * 20));
+    vrt::require("soak.caller_block_rewritten_in_place", need(ncases * 20000));
+    vrt::note("soak: more than 70000 consecutive call groups per case (one process) on strings of 64..300 bytes, every result against the reference / against an equal string built elsewhere");
+    vrt::phase("soak", ncases, soak::one_case);
+}
+
 static void body()
 {
     ambient::enable(3);
@@ -910,6 +1840,7 @@ static void body()
     }
 
     scale_phases();
+    history_phases();
 
     buffer_phase<char>("char", std::vector<char>{0, 1, 'A', 'a', 0x7f, static_cast<char>(0x80), static_cast<char>(0xff)});
     buffer_phase<wchar_t>("wchar_t", std::vector<wchar_t>{0, 1, L'A', 0x7f, 0x80, 0xff, 0xd800, 0xffff, 0x10ffff});
